@@ -75,7 +75,8 @@ class Hist:
     def fp_arr(self, a):
         return dict(legs_list=self.cid(a.legs), legs=[self.fp_leg(l) for l in a.legs], qtotal=self.cbase(a.qtotal),
                     labels=self.cid(a._labels), data=self.cid(a._data), blocks=[self.cbase(t) for t in a._data],
-                    qdata=self.cbase(a._qdata), nq=int(len(a._qdata)))
+                    qdata=self.cbase(a._qdata), nq=int(len(a._qdata)),
+                    keys=keys_of(a) if a._qdata.shape[1] == len(a.legs) else None)
 
     @staticmethod
     def mut_ids(fp):
@@ -111,6 +112,9 @@ class Hist:
     def begin(self):
         self.prev_obs = [self.obs_arr(a) for a in self.A]
         self.prev_fp = [self.fp_arr(a) for a in self.A]
+        if self.fps and self.prev_fp != self.fps[-1]['arrs']:
+            raise RuntimeError('harness: a tensor changed between two recorded steps (after %r, attempted %r)'
+                               % (self.ops[-1], getattr(self, 'attempts', None)))
         for l in self.G:
             self.note_leg(l)
 
@@ -124,6 +128,7 @@ class Hist:
         for l in new_legs:
             self.G.append(l)
         self.ops.append(name)
+        self.attempts = []
         self.steps.append(calls)
         fp_a = [self.fp_arr(a) for a in self.A]
         fp_g = [self.fp_leg(l) for l in self.G]
@@ -133,13 +138,6 @@ class Hist:
         if target is not None:
             tm = self.mut_ids(self.prev_fp[target])
             allowed = {k for k in range(n_before) if k == target or (self.mut_ids(self.prev_fp[k]) & tm)}
-        for k in range(n_before):
-            if k in allowed:
-                continue
-            if self.obs_arr(self.A[k]) != self.prev_obs[k]:
-                what = 'operand-or-bystander-changed' if target is None else 'unshared-tensor-changed-by-inplace'
-                self.oracle.append((f'c03.{name}.{what}', f'step {len(self.ops) - 1}: tensor #{k} changed'
-                                    + (f' (in-place target #{target})' if target is not None else '')))
         for lid, (l, snap) in list(self.legsnap.items()):
             now = self.leg_snapshot(l)
             if now != snap:
@@ -147,6 +145,13 @@ class Hist:
                 self.oracle.append((f'c03.{name}.leg-mutated', f'step {len(self.ops) - 1}: a leg object that existed '
                                     f'before the call changed (snapshot fields {diff}: 2=slices 3=charges 4=qconj 5,6=flags)'))
                 self.legsnap[lid] = (l, now)
+        for k in range(n_before):
+            if k in allowed:
+                continue
+            if self.obs_arr(self.A[k]) != self.prev_obs[k]:
+                what = 'operand-or-bystander-changed' if target is None else 'unshared-tensor-changed-by-inplace'
+                self.oracle.append((f'c03.{name}.{what}', f'step {len(self.ops) - 1}: tensor #{k} changed'
+                                    + (f' (in-place target #{target})' if target is not None else '')))
         if deep is not None:
             k = n_before + deep
             mine = self.mut_ids(fp_a[k])
@@ -214,11 +219,33 @@ class Walk:
     def pick(self, pred=None):
         # (a shallow copy whose shared `_data` list was appended to through its sibling — the documented pitfall of
         #  copy(deep=False) — has len(_data) != len(_qdata); it stays alive and observed but is not used as an operand)
-        idx = [i for i, a in enumerate(self.H.A) if len(a._data) == len(a._qdata) and (pred is None or pred(a))]
+        idx = [i for i, a in enumerate(self.H.A) if self.usable(a) and (pred is None or pred(a))]
         if not idx:
             raise Skip()
         # prefer recent objects a little, but keep old ones in play (second references!)
         return self.rng.choice(idx + idx[-3:])
+
+    @staticmethod
+    def usable(a):
+        # not usable as operands (they stay alive and observed): a shallow copy whose shared `_data` list was appended
+        # to through its sibling (documented pitfall of copy(deep=False)); the result of split_legs on a tensor without
+        # blocks, whose `_qdata` keeps the old number of columns (storage-invariant defect, property C02)
+        return len(a._data) == len(a._qdata) and a._qdata.shape[1] == a.rank
+
+    def resorts_that_happened(self):
+        """a call that tenpy rejected may already have re-sorted / made contiguous an operand (benign): keep exactly the
+        prepared 'resort' model calls whose operand got a new `_data` list"""
+        out = []
+        for c in getattr(self, 'pending', []):
+            k = c['a'][0] if c['name'] == 'resort' and c['a'] else -1
+            if 0 <= k < len(self.H.prev_fp) and self.H.prev_fp[k]['data'] != self.H.cid(self.H.A[k]._data):
+                out.append(c)
+        return out
+
+    def pick_target(self, pred=None):
+        i = self.pick(pred)
+        self.inplace_target = i
+        return i
 
     def setup(self):
         from vlib import npcio
@@ -348,7 +375,7 @@ class Walk:
 
     def op_iconj(self):
         H = self.H
-        i = self.pick()
+        i = self.pick_target()
         a = H.A[i]
         cplx = a.dtype.kind == 'c'
         H.begin()
@@ -389,6 +416,7 @@ class Walk:
         inplace = rng.random() < 0.5
         H.begin()
         if inplace:
+            self.inplace_target = i
             a.iscale_axis(s, ax)
             H.end('iscale_axis', [call('iscale_axis', a=[i], n=[dcode(a.dtype)])], target=i)
         else:
@@ -415,6 +443,7 @@ class Walk:
             r = a.replace_label(a._labels[0], new)
             H.end('replace_label', [call('replace_label', a=[i], res='a')], new_arrs=[r])
         else:
+            self.inplace_target = i
             a.ireplace_label(a._labels[0], new)
             H.end('ireplace_label', [call('ilabels', a=[i])], target=i)
 
@@ -484,7 +513,7 @@ class Walk:
         i = self.pick()
         a = H.A[i]
         mode = rng.choice(['conj_tmp', 'pair', 'pair'])
-        calls = []
+        calls = self.pending = []
         H.begin()
         if mode == 'conj_tmp':
             # tensordot(a, a.conj(), ...): operand used twice
@@ -559,7 +588,7 @@ class Walk:
 
     def partner(self, i):
         a = self.H.A[i]
-        js = [j for j, b in enumerate(self.H.A) if len(b._data) == len(b._qdata) and self.compatible(a, b)]
+        js = [j for j, b in enumerate(self.H.A) if self.usable(b) and self.compatible(a, b)]
         return self.rng.choice(js)   # contains i itself: `a + a`
 
     def resort_call(self, ref, arr, sort, contig):
@@ -571,7 +600,7 @@ class Walk:
         j = self.partner(i)
         a, b = H.A[i], H.A[j]
         sub = rng.random() < 0.4
-        calls = []
+        calls = self.pending = []
         H.begin()
         calc = np.result_type(a.dtype, b.dtype, 1.0)
         if self.cy:
@@ -591,12 +620,12 @@ class Walk:
 
     def op_iadd(self):
         H, rng = self.H, self.rng
-        i = self.pick()
+        i = self.pick_target()
         j = self.partner(i)
         a, b = H.A[i], H.A[j]
         p = rng.choice([1.0, 2.0, -1.0, 0.5])
         calc = np.result_type(a.dtype, b.dtype, p)
-        calls = []
+        calls = self.pending = []
         H.begin()
         if not self.cy:
             # npc: other.__mul__(prefactor) is a scaled deep copy; ibinary_blockwise sorts self and that temporary
@@ -636,12 +665,12 @@ class Walk:
 
     def op_iscale(self):
         H, rng = self.H, self.rng
-        i = self.pick()
+        i = self.pick_target()
         a = H.A[i]
         s = rng.choice([2.0, -1.0, 0.5, 0.0, 2j])
         calc = np.result_type(a.dtype, s)
         conv = calc != a.dtype
-        calls = []
+        calls = self.pending = []
         H.begin()
         if s != 0.0 and self.cy and not conv:
             calls.append(self.resort_call(i, a, False, True))
@@ -656,7 +685,7 @@ class Walk:
 
     def op_ipurge(self):
         H, rng = self.H, self.rng
-        i = self.pick(lambda a: a.stored_blocks >= 1)
+        i = self.pick_target(lambda a: a.stored_blocks >= 1)
         a = H.A[i]
         # make some blocks zero first through element/blocks assignment on a's own blocks? -> use a cutoff instead
         norms = [float(np.linalg.norm(t)) for t in a._data]
@@ -668,7 +697,7 @@ class Walk:
 
     def op_iproject(self):
         H, rng = self.H, self.rng
-        i = self.pick(lambda a: not any(isinstance(l, H.LegPipe) for l in a.legs))
+        i = self.pick_target(lambda a: not any(isinstance(l, H.LegPipe) for l in a.legs))
         a = H.A[i]
         ax = rng.randrange(a.rank)
         mask = np.array([rng.random() < 0.7 for _ in range(a.shape[ax])])
@@ -680,7 +709,7 @@ class Walk:
 
     def op_setitem_scalar(self):
         H, rng = self.H, self.rng
-        i = self.pick()
+        i = self.pick_target()
         a = H.A[i]
         # an index whose block is compatible with qtotal (else IndexError)
         for _ in range(20):
@@ -705,7 +734,7 @@ class Walk:
 
     def op_setitem_slice(self):
         H, rng = self.H, self.rng
-        i = self.pick(lambda a: a.stored_blocks >= 1 and not any(isinstance(l, H.LegPipe) for l in a.legs))
+        i = self.pick_target(lambda a: a.stored_blocks >= 1 and not any(isinstance(l, H.LegPipe) for l in a.legs))
         a = H.A[i]
         ax = rng.randrange(a.rank)
         lo = rng.randrange(a.shape[ax])
@@ -717,19 +746,32 @@ class Walk:
         sl = a.legs[ax].slices
         W = [k for k in range(len(a._qdata)) if sl[a._qdata[k, ax]] < hi and sl[a._qdata[k, ax] + 1] > lo]
         H.begin()
+        old_list = a._data
         old_blocks = list(a._data)
+        old_keys = keys_of(a)
         a[inds] = other
-        # afterwards ipurge_zeros(0.) drops the blocks that are identically zero now (value dependent: read off)
-        keep = [k for t in a._data for k, o in enumerate(old_blocks) if o is t]
-        if len(keep) != len(a._data):
-            raise Skip()   # a block was inserted: not generated here (other has the block structure of a[inds])
-        calls = [call('setitem_write', a=[i], n=[0], l=[W, []], b=[False, False]),
+        # get_block(insert=True) may have added blocks (appended to the existing list, or to a new one), then
+        # ipurge_zeros(0.) dropped the blocks that are identically zero now (value dependent: read off)
+        in_place = len(old_list) > len(old_blocks)
+        if in_place:
+            post = list(old_list)
+        else:
+            post = old_blocks + [t for t in a._data if not any(t is o for o in old_blocks)]
+        n_ins = len(post) - len(old_blocks)
+        final_keys = dict((id(t), k) for t, k in zip(a._data, keys_of(a)))
+        post_keys = old_keys + [final_keys.get(id(t), 10 ** 6 + n) for n, t in enumerate(post[len(old_blocks):])]
+        keep, used = [], set()
+        for t in a._data:   # (the same ndarray object can occur twice: concatenate([a, a], copy=False))
+            k = next(k for k, o in enumerate(post) if o is t and k not in used)
+            keep.append(k)
+            used.add(k)
+        calls = [call('setitem_write', a=[i], n=[n_ins], l=[W, post_keys], b=[False, in_place]),
                  call('ipurge_zeros', a=[i], l=[keep])]
         H.end('setitem.slice', calls, target=i)
 
     def op_itranspose(self):
         H, rng = self.H, self.rng
-        i = self.pick(lambda a: a.rank >= 2)
+        i = self.pick_target(lambda a: a.rank >= 2)
         a = H.A[i]
         if rng.random() < 0.3:
             ax1, ax2 = rng.sample(range(a.rank), 2)
@@ -755,7 +797,7 @@ class Walk:
             grp = grp[::-1]
         _, transp = a._combine_legs_new_axes([np.array(grp)], None)
         need_transp = tuple(transp) != tuple(range(a.rank))
-        calls = []
+        calls = self.pending = []
         H.begin()
         if not need_transp and a.stored_blocks > 1:
             calls.append(self.resort_call(i, a, False, True))
@@ -775,7 +817,7 @@ class Walk:
                       sum(l.nlegs if isinstance(l, H.LegPipe) else 1 for l in a.legs) <= 4)
         a = H.A[i]
         axes = [k for k, l in enumerate(a.legs) if isinstance(l, H.LegPipe)]
-        calls = []
+        calls = self.pending = []
         H.begin()
         worker = not (a.stored_blocks == 0 or
                       (a.stored_blocks == 1 and all(a.legs[ax].q_map.shape[0] == 1 for ax in axes)))
@@ -800,7 +842,7 @@ class Walk:
         axes = [k for k in range(a.rank) if sort[k] or bunch[k]]
         if not axes:
             raise Skip()
-        calls = []
+        calls = self.pending = []
         H.begin()
         if a.stored_blocks > 1:
             calls.append(self.resort_call(i, a, False, True))
@@ -880,7 +922,7 @@ class Walk:
         H.begin()
         r = a.extend(ax, rng.choice([1, 2]))
         lay = [2 if k == ax else 4 * k for k in range(a.rank)]
-        H.end('extend', [call('extend', a=[i], l=[lay, [lflag(r.legs[ax])]], res='a')], new_arrs=[r], deep=0)
+        H.end('extend', [call('extend', a=[i], l=[lay, [lflag(r.legs[ax])], keys_of(r)], res='a')], new_arrs=[r], deep=0)
 
     def op_concat(self):
         H, rng = self.H, self.rng
@@ -898,15 +940,20 @@ class Walk:
                 return b.legs[ax].qconj == a.legs[ax].qconj
             except ValueError:
                 return False
-        js = [j for j, b in enumerate(H.A) if len(b._data) == len(b._qdata) and ok(b)]
+        js = [j for j, b in enumerate(H.A) if self.usable(b) and ok(b)]
         j = rng.choice(js)
         b = H.A[j]
-        cp = rng.random() < 0.5
+        cp = requested_copy = rng.random() < 0.5
+        if not cp and {id(base_of(t)) for t in a._data} & {id(base_of(t)) for t in b._data}:
+            # concatenate([a, a], copy=False) would hold the same buffer twice in one tensor; the model of
+            # `_imake_contiguous` identifies a block with its buffer, so this exotic state is not generated
+            cp = True
         H.begin()
         r = self.npc.concatenate([a, b], ax, copy=cp)
+        actual_copy, cp = cp, requested_copy   # (name of the step: identical in both kernels)
         l = r.legs[ax]
         lay = [2 if k == ax else 4 * k for k in range(a.rank)]
-        if not cp:
+        if not actual_copy:
             same = [int(a.dtype == r.dtype), int(b.dtype == r.dtype)]
             c = call('concat_views', a=[i, j], n=[dcode(r.dtype), ax], l=[[], keys_of(r), same],
                      b=[False, False, l.qconj > 0, l.sorted, l.bunched], res='a')
@@ -916,11 +963,11 @@ class Walk:
 
     def op_ibinary(self):
         H, rng = self.H, self.rng
-        i = self.pick()
+        i = self.pick_target()
         j = self.partner(i)
         a, b = H.A[i], H.A[j]
         H.begin()
-        calls = [call('resort', a=[i], b=[True, False], l=[[]])]
+        calls = self.pending = [call('resort', a=[i], b=[True, False], l=[[]])]
         if j != i:
             calls.append(call('resort', a=[j], b=[True, False], l=[[]]))
         a.ibinary_blockwise(np.add, b)
@@ -954,6 +1001,9 @@ class Walk:
                 continue
             if len(self.H.A) > 26 and name in ('new', 'copy'):
                 continue
+            self.H.attempts = getattr(self.H, 'attempts', []) + [name]
+            self.inplace_target = None
+            self.pending = []
             try:
                 getattr(self, 'op_' + name)()
                 done += 1
@@ -964,7 +1014,7 @@ class Walk:
                 tb = traceback.extract_tb(sys.exc_info()[2])
                 if not any('tenpy' in f.filename for f in tb):
                     raise
-                self.H.end('rejected.' + name, [])
+                self.H.end('rejected.' + name, self.resorts_that_happened(), target=self.inplace_target)
                 done += 1
         return self.H
 
